@@ -583,6 +583,32 @@ theorem reorderCmd_lookup (cmd : Dict) (k : Key) : alookup k (reorderCmd cmd) = 
     · subst e; simp [alookup, h]
     · simp [alookup, e, alookup_aerase]
 
+/-! ## the declared defaults as `CoreData.__init__` finalises them (coredata.py:233-260, 320-325) -/
+
+/-- `CoreData.__init__`'s option part keeps every stored value valid -/
+theorem coredata_init_keeps_values_valid (s : Store) (h : HeapValid s) : HeapValid (coreDataInit s).2 :=
+  Pres.coreDataInit.run s h
+
+/-- what a builtin reports right after `CoreData.__init__`: its prefix-dependent value at the default prefix if it
+has one, else its declared default — in a cross build the declared defaults of the table *after*
+`builtin_options_libdir_cross_fixup` (regenerated from the live module on every run) -/
+def builtinDefaultOk (cross : Bool) (row : Str × Kind × Val × Bool) : Bool :=
+  let want : Val :=
+    match alookup row.1 Tables.nopfxTable with
+    | some m => (match alookup Tables.defaultPrefix m with | some v => .str v | none => row.2.2.1)
+    | none => row.2.2.1
+  (getValueFor (coreDataInit (Store.new cross)).2 ⟨row.1, none, .host⟩).toOption == some want
+
+theorem builtins_report_declared_default :
+    (Tables.builtinOptions.all (builtinDefaultOk false) && Tables.builtinOptionsCross.all (builtinDefaultOk true)) = true := by
+  decide +kernel
+
+/-- the documented special case: with a cross file, `libdir` defaults to `lib`, not to the build machine's guess -/
+theorem cross_libdir_default_is_lib :
+    (getValueFor (coreDataInit (Store.new true)).2 ⟨"libdir".toList, none, .host⟩).toOption
+      = some (.str "lib".toList) := by
+  decide +kernel
+
 /-! ## prefix-dependent directory defaults -/
 
 def kDir (n : String) : Key := ⟨n.toList, none, .host⟩
